@@ -143,9 +143,9 @@ impl Visitor for OpVisitor<'_> {
 /// A stream whose `size_hint()` is truthful but vague, like `filter`, `scan`, `from_fn` or a
 /// decoder of compressed data give: mode 1 = (0, upper bound of the inner stream), mode 2 =
 /// (0, None), anything else = the inner stream's own hint. Only `next` is forwarded.
-struct Vague<I> {
-    it: I,
-    mode: u8,
+pub struct Vague<I> {
+    pub it: I,
+    pub mode: u8,
 }
 
 impl<I: Iterator> Iterator for Vague<I> {
@@ -163,7 +163,7 @@ impl<I: Iterator> Iterator for Vague<I> {
 }
 
 /// Which hint the stream of an operation announces: derived from the operation (no tape draw).
-fn hint_mode(op: &TOp) -> u8 {
+pub fn hint_mode(op: &TOp) -> u8 {
     let k = match op {
         TOp::DrawIter(px) => px.len() as u64 + px.first().map_or(0, |p| (p.0 as i64 + 3 * p.1 as i64) as u64),
         TOp::FillContiguous { area, colours, .. } => colours.len() as u64 + (area[0] as i64 + 3 * area[1] as i64 + 5 * area[2] as i64) as u64,
